@@ -171,6 +171,8 @@ func runC05(c *Ctx) {
 	ruleReaderUses(c, "R05.g", "R05.g")
 	ruleBulkFrame(c, "R05.g")
 	ruleReplyBufferLocal(c, "R05.h")
+	// "on the connection the request arrived on"
+	ruleGoroutineOwnsItsIteration(c, "R05.i")
 	// SCAN MATCH hands the handler a compiled pattern: it is the client's glob only if the translation is faithful
 	ruleQuotedPattern(c)
 	c.assume("[]byte<->string conversions are the identity; strconv parses decimal integers and floats as documented")
